@@ -3,6 +3,7 @@ package props
 import (
 	"fmt"
 	"sort"
+	"strings"
 	"testing"
 
 	"github.com/bufbuild/protocompile/protoutil"
@@ -326,6 +327,65 @@ func TestC04_Corpus(t *testing.T) {
 			for _, root := range ws.Roots {
 				if !yield(wsCase{Files: ws.Files, Names: []string{root}}) {
 					return
+				}
+			}
+		}
+	})
+}
+
+// TestC04_GroupLikeShapes enumerates the name/scope/encoding combinations that decide whether an editions
+// field "looks like a group" (text name = message name) and the packed/presence option combinations.
+func TestC04_Shapes(t *testing.T) {
+	ev.RunEnum(t, ev.Spec[wsCase]{ID: "C04", Name: "Shapes",
+		Rule:  "ALL combinations of {message name Grp, MyField, A} x {field name lower-cased, first-letter-lowered, upper-cased, unrelated} x {type declared in the same scope, in the enclosing scope} x {message_encoding DELIMITED at the field, at the file, none} x {singular, repeated} in edition 2023, plus proto2/proto3 files with every packed option value on every packable kind and required/optional/implicit mixes; same oracle as Generated",
+		Check: c04Check}, true, func(yield func(wsCase) bool) {
+		for _, mn := range []string{"Grp", "MyField", "A"} {
+			lf := strings.ToLower(mn[:1]) + mn[1:]
+			for _, fn := range []string{strings.ToLower(mn), lf, strings.ToUpper(mn) + "_", "unrelated"} {
+				for _, same := range []bool{true, false} {
+					for _, enc := range []string{"field", "file", "none"} {
+						for _, rep := range []string{"", "repeated "} {
+							var sb strings.Builder
+							sb.WriteString("edition = \"2023\";\npackage p;\n")
+							if enc == "file" {
+								sb.WriteString("option features.message_encoding = DELIMITED;\n")
+							}
+							decl := "message " + mn + " { int32 x = 1; }\n"
+							if !same {
+								sb.WriteString(decl)
+							}
+							sb.WriteString("message Outer {\n")
+							if same {
+								sb.WriteString("  " + decl)
+							}
+							opt := ""
+							if enc == "field" {
+								opt = " [features.message_encoding = DELIMITED]"
+							}
+							fmt.Fprintf(&sb, "  %s%s %s = 1%s;\n  map<string, %s> m = 2;\n}\n", rep, mn, fn, opt, mn)
+							if !yield(wsCase{Files: map[string]string{"f.proto": sb.String()}, Names: []string{"f.proto"}}) {
+								return
+							}
+						}
+					}
+				}
+			}
+		}
+		for _, syn := range []string{"proto2", "proto3"} {
+			for _, ty := range []string{"int32", "bool", "double", "E", "string", "M"} {
+				for _, packed := range []string{"", " [packed = true]", " [packed = false]"} {
+					if packed == " [packed = true]" && (ty == "string" || ty == "M") {
+						continue
+					}
+					first := "E0 = 0;"
+					lbl := "optional "
+					if syn == "proto3" {
+						lbl = ""
+					}
+					src := fmt.Sprintf("syntax = %q;\npackage p;\nenum E { %s E1 = 1; }\nmessage M {\n  repeated %s r = 1%s;\n  %s%s s = 2;\n}\n", syn, first, ty, packed, lbl, ty)
+					if !yield(wsCase{Files: map[string]string{"f.proto": src}, Names: []string{"f.proto"}}) {
+						return
+					}
 				}
 			}
 		}
